@@ -2,7 +2,7 @@
 
 MODULE = "DtailModel.Props.C06"
 # scripts with real waits: a disagreement counts only if it reproduces when re-run alone (flake policy, DESIGN 2.3)
-TIMED_OPS = ("c06.fifo", "c06.queue", "c06.merge", "c06.server")
+TIMED_OPS = ("c06.fifo", "c06.queue", "c06.merge", "c06.server", "c06.interim")
 GROUPS = ["C06", "C15"]
 LOGGER = "none"
 JOBS = 16
@@ -36,6 +36,8 @@ def _gen_c06(rng, budget, tier):
     yield "c06.merge 3 H,A0:x:1,A1:y:2,A2:x:4,G,A1:y:3"
     yield "c06.fifo 2 M,C0,P0,P0,X0,C1,P1,X1"                # recorded: file 1 registers after the aggregator finished
     yield "c06.fifo 2 M,C0,C1,P0,P1,P0,X0,P1,X1"
+    # seeded round 6: an interim result with far more messages than the queue holds is in flight when the input ends
+    yield "c06.interim 300 5"
     # more files than NextLinesCh holds, readers waiting to register while the aggregator rotates
     yield "c06.queue 3 2"
     yield "c06.queue 101 5"
